@@ -190,7 +190,8 @@ def ph2ph_specs(draw, tier):
              M=draw(st.sampled_from([[1, 1, 2], [2, 1, 1], [1, 2, 1], [2, 2, 1], [1, 1, 3], [2, 1, 2], "unrelated"])),
              S2=draw(st.lists(st.integers(-2, 2), min_size=9, max_size=9).filter(lambda v: 1 <= det3(np.array(v).reshape(3, 3)) <= 6)),
              nac=draw(st.sampled_from(["none", "none", "wang_interp", "wang_nointerp"])), compact=draw(st.booleans()),
-             snf=draw(st.booleans()), dense_svecs=draw(st.booleans()), set_masses=draw(st.booleans()))
+             snf=draw(st.booleans()), dense_svecs=draw(st.booleans()), set_masses=draw(st.booleans()),
+             fsf=draw(st.sampled_from([None, None, None, 1.1, 0.93])))  # deprecated-but-supported frequency_scale_factor
     return b
 
 
@@ -210,6 +211,8 @@ def run_ph2ph(spec):
         return Out(nontrivial=False, classes=["too_large"])
     try:
         okw = dict(use_SNF_supercell=bool(spec.get("snf")), store_dense_svecs=bool(spec.get("dense_svecs", True)))
+        if spec.get("fsf") is not None:
+            okw["frequency_scale_factor"] = spec["fsf"]
         ph = Phonopy(c["cell"], supercell_matrix=S1, primitive_matrix=_pmat(spec["pmat"], c), log_level=0, **okw)
     except Exception as e:
         return Out(nontrivial=False, rejected=True, classes=["ctor_rejected:" + type(e).__name__])
@@ -266,7 +269,7 @@ def run_ph2ph(spec):
     return Out(ok=True, nontrivial=n_assert >= 2 and det3(S2) >= 2,
                classes=["related" if spec["M"] != "unrelated" else "unrelated", "nac:" + spec["nac"], "compact" if spec["compact"] else "full",
                         "snf" if spec.get("snf") else "classic", "dense" if spec.get("dense_svecs", True) else "sparse",
-                        "masses_set" if spec.get("set_masses") else "masses_default"],
+                        "masses_set" if spec.get("set_masses") else "masses_default", "fsf:%s" % spec.get("fsf")],
                info={"err": worst, "asserted_q": n_assert})
 
 
